@@ -6,7 +6,33 @@
 // variant that uses a local buffer. A failure is a harness defect (exit 2).
 package conclitmus
 
+import "sync"
+
 var scratch [4]byte
+
+var kept struct {
+	sync.Mutex
+	buf []byte
+}
+
+// fill puts v's bytes into the kept buffer under its lock and returns the
+// buffer: the caller reads it after the lock has been released.
+func fill(v uint32) []byte {
+	kept.Lock()
+	defer kept.Unlock()
+	b := append(kept.buf[:0], byte(v>>24), byte(v>>16), byte(v>>8), byte(v))
+	kept.buf = b
+	return b
+}
+
+// EncodeReturned copies the bytes out of the buffer that fill hands back.
+func EncodeReturned(v uint32) []byte {
+	var out []byte
+	for _, x := range fill(v) {
+		out = append(out, x)
+	}
+	return out
+}
 
 // Encode writes v's four bytes into the shared scratch buffer and returns a copy.
 func Encode(v uint32) []byte {
